@@ -630,6 +630,37 @@ Proof.
   apply Rle_trans with (r2 := 3); [|lra]. interval.
 Qed.
 
+Definition m3trace (M : @mat3 R) : R := vx (mr0 M) + vy (mr1 M) + vz (mr2 M).
+Lemma trace_SO3_matrix (q : quatR) : unitq q -> (m3trace (SO3_matrix q) - 1) / 2 = 2 * (qw q * qw q) - 1.
+Proof.
+  unfold unitq. destruct q as [[[a b] c] w]. unfold m3trace. lie_unfold. intros H. nra.
+Qed.
+Lemma cos_Rabs (z : R) : cos (Rabs z) = cos z.
+Proof. unfold Rabs. destruct (Rcase_abs z); [apply cos_neg|reflexivity]. Qed.
+
+(* in the generic regime the value of the geodesic loss is THE rotation angle: it lies in [0, pi) and
+   its cosine is (trace R - 1) / 2 *)
+Lemma SO3_log_norm_is_angle (eps : R) (q : quatR) : unitq q -> eps < vnorm (qv q) -> eps < Rabs (qw q) -> 0 <= eps ->
+  cos (vnorm (SO3_log eps q)) = (m3trace (SO3_matrix q) - 1) / 2.
+Proof.
+  intros Hu Hv Hw He. rewrite trace_SO3_matrix by assumption.
+  unfold SO3_log, SO3_log_factor. branch_true. rewrite absF_R. branch_true.
+  rewrite vnorm_scale. set (vn := vnorm (qv q)) in *. set (w := qw q) in *. num_simpl.
+  assert (Hvn : 0 < vn) by lra.
+  assert (Hw0 : w <> 0) by (intros E; rewrite E, Rabs_R0 in Hw; lra).
+  assert (Hu' : vn * vn + w * w = 1).
+  { unfold vn. rewrite vnorm_sq. unfold unitq, qnorm2 in Hu. fold w in Hu. num_unfold. lra. }
+  replace (Rabs (IZR 2 * atan (vn / w) / vn) * vn) with (Rabs (2 * atan (vn / w))).
+  2:{ symmetry. replace (IZR 2 * atan (vn / w) / vn) with ((2 * atan (vn / w)) * / vn) by (field; lra).
+      rewrite Rabs_mult, (Rabs_pos_eq (/ vn)) by (left; now apply Rinv_0_lt_compat).
+      rewrite Rmult_assoc, Rinv_l by lra. ring. }
+  rewrite cos_Rabs, cos_2a_cos, cos_atan.
+  assert (Hpos : 0 < 1 + (vn / w)²) by (unfold Rsqr; nra).
+  replace (2 * (1 / sqrt (1 + (vn / w)²)) * (1 / sqrt (1 + (vn / w)²))) with (2 / (sqrt (1 + (vn / w)²) * sqrt (1 + (vn / w)²)))
+    by (field; apply Rgt_not_eq, sqrt_lt_R0; assumption).
+  rewrite sqrt_sqrt by lra. unfold Rsqr. field_simplify_eq; [|split; [assumption|nra]]. nra.
+Qed.
+
 Theorem geodesic_theta_range (eps : R) (x y : quatR) : 0 <= eps <= 1 / 2 -> unitq x -> unitq y ->
   0 <= geodesic_theta eps x y <= PI.
 Proof.
@@ -641,6 +672,14 @@ Proof.
     + left. apply SO3_log_norm_regime1; lra.
     + right. apply SO3_log_norm_regime2; lra.
   - now apply SO3_log_norm_regime3.
+Qed.
+(* the value is the rotation angle of x y^-1 (generic regime): its cosine is (trace R - 1) / 2 *)
+Theorem geodesic_theta_is_angle (eps : R) (x y : quatR) : 0 <= eps -> unitq x -> unitq y ->
+  let q := SO3_mul x (SO3_inv y) in eps < vnorm (qv q) -> eps < Rabs (qw q) ->
+  cos (geodesic_theta eps x y) = (m3trace (SO3_matrix q) - 1) / 2.
+Proof.
+  intros He Hx Hy q Hv Hw. unfold geodesic_theta. fold q. apply SO3_log_norm_is_angle; try assumption.
+  apply unitq_mul; [assumption|now apply unitq_inv].
 Qed.
 Theorem geodesic_theta_sym (eps : R) (x y : quatR) : geodesic_theta eps x y = geodesic_theta eps y x.
 Proof.
